@@ -97,7 +97,7 @@ func (fr *Frame) callValue(in ssa.CallInstruction, c *ssa.CallCommon, fv Val, ar
 }
 
 var purePkgs = map[string]bool{"fmt": true, "errors": true, "strings": true, "strconv": true, "time": true, "math": true, "bytes": true,
-	"github.com/hashicorp/go-metrics": true, "github.com/armon/go-metrics": true, "github.com/hashicorp/go-hclog": true, "path/filepath": true, "math/rand": true, "crypto/rand": true, "math/big": true, "os": false, "sort": false, "runtime": true, "log": true}
+	"github.com/hashicorp/go-metrics": true, "github.com/hashicorp/go-metrics/compat": true, "github.com/armon/go-metrics": true, "github.com/hashicorp/go-hclog": true, "path/filepath": true, "math/rand": true, "crypto/rand": true, "math/big": true, "os": false, "sort": false, "runtime": true, "log": true}
 
 func purePkg(fn *ssa.Function) bool {
 	if fn.Pkg != nil {
@@ -547,6 +547,7 @@ func (fr *Frame) applyContract(in ssa.CallInstruction, key string, fc *FuncContr
 	fr.bumpAlloc()
 	// results
 	var res Val = vUnit
+	var errTag string
 	rs := sig.Results()
 	env2 := &Env{ex: ex, st: fr.st, old: old, vars: env.vars, this: this}
 	if rs.Len() > 0 {
@@ -555,6 +556,9 @@ func (fr *Frame) applyContract(in ssa.CallInstruction, key string, fc *FuncContr
 			v, facts := ex.freshVal(fr.st, rs.At(i).Type(), "res."+sanitize(key))
 			fr.assumeAll(facts)
 			vals[i] = v
+			if v.K == VIface && i == rs.Len()-1 {
+				errTag = v.Fs[0].T
+			}
 			tv := TV{V: v, T: rs.At(i).Type()}
 			env2.vars[fmt.Sprintf("result%d", i)] = tv
 			if n := rs.At(i).Name(); n != "" && n != "_" {
@@ -576,6 +580,24 @@ func (fr *Frame) applyContract(in ssa.CallInstruction, key string, fc *FuncContr
 			continue
 		}
 		fr.assume(fr.evalClause(env2, c))
+	}
+	// crash points: after every durable write (a call of an assumed interface
+	// contract that modifies its ghost model) the function's crash invariants must hold
+	if fc.Kind == "interface" && len(fc.Modifies) > 0 && ex.fc != nil && len(ex.fc.Crash) > 0 && ex.topFrame != nil {
+		tf := ex.topFrame
+		cenv := tf.topEnv(fr.st)
+		cenv.old = ex.entry
+		where := site
+		if !fr.top {
+			where = fr.fn.Name() + ">" + site
+		}
+		for _, c := range ex.fc.Crash {
+			g := fr.evalClause(cenv, c)
+			o := ex.addOblig("crash", c.Label+"@"+where, ex.prog.pos(in.Pos()), mkImp(fr.cur, g), "after this durable write: "+c.Src)
+			if o != nil && errTag != "" {
+				o.Observe = append(append([]Observable{}, o.Observe...), Observable{Name: "this_write_error_tag", Term: errTag})
+			}
+		}
 	}
 	return res
 }
